@@ -2,7 +2,6 @@
 bin/gen-manifest turns this into MANIFEST.json."""
 
 NOT_APPLICABLE = {
-    "C17": "equality of a computed Merkle root with an independent commitment is value-level; a self-consistent change of hashing leaves every structural rule intact",
     "C18": "reachability of stored tree nodes from the current root over all histories is a property of runtime data, not of code shape",
     "C23": "soundness relates the comparison verdict to validity of all payloads under two schemas; semantic, no structural necessary condition",
     "C38": "soundness of analyser output against all executions on all ledger states is semantic",
@@ -279,3 +278,9 @@ claim("C27", "guard dominance: the sign-accepting integer parser reaches the fra
       "sign-accepting big-integer parser only behind an ASCII-digits-only test (a genuine defect - \"1.-5\" parsed as 0.95 - was found on the pinned "
       "tree and repaired by a fix: commit); the parse rejections are live and the scale derives from the fractional length. Print/parse round-trip "
       "equality and exactness of the parsed value are value-level and not decided.")
+
+claim("C17", "variant-arm agreement and argument origins in the three state-tree tiers (what is hashed into which leaf)",
+      "Decides the tier-update shape clause only: the substate tier matches PartitionDatabaseUpdates with no catch-all, Set builds Some(new_leaf(value)) "
+      "and Delete None, a Reset records the old subtree stale and empties the tier root before the new leaves are generated, new_leaf hashes exactly "
+      "the value it is given; a partition's leaf is the root hash returned by its substate tier and an entity's leaf the root returned by its "
+      "partition tier, unchanged. Equality with an independent sparse-Merkle commitment, batching independence and the jellyfish algorithm are not decided.")
